@@ -590,6 +590,15 @@ impl<'a> Local<'a> {
         self.stats.states += n;
     }
 
+    /// Account for `n` executions that were compared in a tight loop by the caller (all passed);
+    /// `nt` of them non-trivial. Failing executions of such loops go through `record`.
+    pub fn bulk(&mut self, op: &'static str, n: u64, nt: u64, class_mask: u16) {
+        self.stats.transitions += n;
+        self.stats.nontrivial += nt;
+        *self.op_counts.entry(op).or_insert(0) += n;
+        *self.classes.entry(op).or_insert(0) |= class_mask;
+    }
+
     /// Run the implementation under the watchdog and `catch_unwind`.
     #[inline]
     pub fn guard(&mut self, op: &'static str, src: &'static str, bits: usize, args: &[V], f: impl FnOnce() -> V) -> V {
